@@ -100,6 +100,7 @@ def has_quant(f) -> bool:
 
 
 class State:
+    qf_mode = False
     hard_names = set()      # obligations already found undischargeable in this process: later instances get a short budget
 
     def __init__(self, prefix=None, timeout_ms=None):
@@ -124,6 +125,7 @@ class State:
         self.marks = {}
         self.solver_time = 0.0
         self._seen = set()
+        self._qfree = set()
         self.assume(self.alloc >= 1000)
 
     # ----------------------------------------------------------------------------------- naming
@@ -148,6 +150,8 @@ class State:
 
     def _closure_axiom(self, name, h0):
         """entry-heap well-formedness: a reference stored in the entry heap points to an object that already exists"""
+        if State.qf_mode:
+            return      # bounded, quantifier-free runs state the facts they need as finite preconditions
         a0 = z3.Int("alloc0")
         r = z3.Int("cl!r")
         if name in ("$len", "$dcnt", "$type", "$dhas", "$dpos"):
@@ -218,8 +222,27 @@ class State:
             self._seen.add(fid)
         self.pc.append(f)
         self.solver.add(f)
-        if z3.is_expr(f) and not has_quant(f):
+        if z3.is_expr(f) and not self._has_quant_cached(f):
             self.light.add(f)
+
+    def _has_quant_cached(self, f):
+        """has_quant with a per-path memo of sub-DAGs already known to be quantifier-free (asserted formulas stay alive,
+        so AST ids are stable for the lifetime of this State)"""
+        todo = [f]
+        local = set()
+        while todo:
+            e = todo.pop()
+            i = e.get_id()
+            if i in self._qfree or i in local:
+                continue
+            if z3.is_quantifier(e):
+                return True
+            local.add(i)
+            if len(local) > 20000:
+                return True
+            todo.extend(e.children())
+        self._qfree |= local
+        return False
 
     def feasible(self, f=None):
         t = time.time()
